@@ -8,7 +8,7 @@ import (
 
 const (
 	tagMaxCount  = 84
-	bufferLength = 1024
+	bufferLength = 4096 // as large as the bufio windows of the buffered paths, so both accept the same values
 )
 
 // buffer for data and tags
